@@ -66,6 +66,7 @@ func runC07(b *Batch) {
 			continue
 		}
 		c07Case(b, i)
+		collectGarbage(i)
 	}
 }
 
